@@ -74,6 +74,10 @@ func DefaultTrueName(table map[string]string) func(string) string {
 	}
 }
 
+// Bare makes New leave the File's body empty (no helper function); set only around single-threaded
+// construction of worlds that are about Files without code.
+var Bare bool
+
 // New makes a world. ctor: "NewFile" (name main... no path), "NewFilePath", "NewFilePathName".
 func New(ctor, local string, trueName func(string) string) *World {
 	w := &World{Ctor: ctor, Local: local, TrueName: trueName, Dot: map[string]bool{}}
@@ -94,6 +98,9 @@ func New(ctor, local string, trueName func(string) string) *World {
 		panic("imp: unknown ctor " + ctor)
 	}
 	w.Log = append(w.Log, fmt.Sprintf("%s(%q)", ctor, local))
+	if Bare {
+		return w
+	}
 	// helper used by some wrappers
 	w.F.Func().Id("Zid").Params(jen.Id("a").Op("...").Int()).Int().Block(jen.Return(jen.Lit(0)))
 	return w
@@ -174,6 +181,31 @@ func (w *World) Ref(path string, wrapper int) {
 	}
 	w.F.Add(code)
 	w.Log = append(w.Log, fmt.Sprintf("Ref(%q,%s)", path, Wrappers[wrapper].Name))
+}
+
+// RefsInOneDict adds references to all the given paths inside ONE Dict - as the values of its pairs
+// (keys are distinct literals) or as the keys (values are literals) - in a single declaration.
+func (w *World) RefsInOneDict(paths []string, asKeys bool) {
+	d := jen.Dict{}
+	for i, p := range paths {
+		n := len(w.Refs)
+		sym := fmt.Sprintf("R%d", n)
+		w.Refs = append(w.Refs, Ref{Path: p, Sym: sym, Wrapper: "one-dict", Rendered: true})
+		if p == w.Local && w.Local != "" {
+			w.F.Var().Id(sym).Op("=").Lit(0)
+		}
+		if asKeys {
+			d[jen.Qual(p, sym)] = jen.Lit(i)
+		} else {
+			d[jen.Lit(i)] = jen.Qual(p, sym)
+		}
+	}
+	if asKeys {
+		w.F.Var().Id("_").Op("=").Map(jen.Interface()).Int().Values(d)
+	} else {
+		w.F.Var().Id("_").Op("=").Map(jen.Int()).Interface().Values(d)
+	}
+	w.Log = append(w.Log, fmt.Sprintf("RefsInOneDict(%q, as keys: %v)", paths, asKeys))
 }
 
 func (w *World) Name(path string) {
